@@ -39,7 +39,6 @@ def sgn(x):
 
 class Dual:
     __slots__ = ("v", "d")
-    __array_priority__ = 2000.0
     __hash__ = None  # type: ignore[assignment]
 
     def __init__(self, v, d):
